@@ -103,7 +103,9 @@ impl KeySetProvider {
         let id_offset = u32::from_be_bytes(buf[8..12].try_into().unwrap());
         let primary = u32::from_be_bytes(buf[12..16].try_into().unwrap());
         let len = u32::from_be_bytes(buf[16..20].try_into().unwrap());
-        if primary > len {
+        // primary is used as an index into the keys, so it must be strictly
+        // below the number of keys (this also rejects an empty key set)
+        if primary >= len {
             return Err(std::io::ErrorKind::Other.into());
         }
         let mut keys = vec![];
